@@ -209,8 +209,8 @@ def run(ctx):
         env["VERIF_REPLAY"] = os.path.abspath(ctx.replay)
     else:
         env["VERIF_CORPUS"] = os.path.join(ROOT, "harness", "corpus", "C14")
-        env["VERIF_HISTS"] = 1500 if ctx.thorough else 110
-        env["VERIF_BASES"] = 80 if ctx.thorough else 10
+        env["VERIF_HISTS"] = 3000 if ctx.thorough else 110
+        env["VERIF_BASES"] = 130 if ctx.thorough else 10
         env["VERIF_MAXVAR"] = 400 if ctx.thorough else 36
     rc, log, out = ctx.run_harness(binary, "TestVerifC14", env, timeout=3000)
     if rc != 0:
@@ -253,6 +253,22 @@ def run(ctx):
             name = re.sub(r"[^A-Za-z0-9]+", "-", sig.split(":", 1)[1])[:60] + ".jsonl"
             ctx.violation(sig, text + f" [history {h.reset.get('hist')} kind {h.reset.get('kind')}]", name, "\n".join(replay) + "\n")
     ctx.oblige("oracle:no-loss/no-call-after-done/only-admitted/at-least-once/failed-visible(impl)", n_viol == 0, f"{n_viol} violations")
+
+    # ---- real sleeping of the retry loop: never shorter than retryDelay * 2^(1+k) (capped), i.e. growing
+    n_timing = 0
+    for raw in ops[:40]:
+        if raw and '"timing"' in raw:
+            op = json.loads(raw)
+            gaps, d = op.get("gapsNs", []), op["dNs"]
+            n_timing += 1
+            cap = (facts or {}).get("retryMaxDelayNs", 86400 * 10**9)
+            short = [k for k, g in enumerate(gaps) if g < min(cap, d * 2 ** (k + 1))]
+            ctx.oblige(f"oracle:real-backoff-sleeps(d={d}ns)", len(gaps) >= 6 and not short,
+                       f"gaps {gaps} shorter than back-off at attempts {short}" if short else f"{len(gaps)} gaps observed (ns): {gaps}")
+            if short:
+                ctx.violation("C14:retry-sleep-shorter-than-backoff", f"retry loop with delay {d}ns slept {gaps} ns; attempts {short} came earlier than retryDelay*2^(1+k)",
+                              "retry-sleep-shorter-than-backoff.jsonl", json.dumps(cfg) + "\n" + raw + "\n")
+    ctx.cov["real_timing_loops"] = n_timing
 
     # ---- correspondence model vs implementation
     if bad:
